@@ -270,7 +270,7 @@ func (p *Program) InterfaceMethod(pkgPath, typ, name string) *types.Func {
 }
 
 // ExternalFunc resolves a package-level function of a dependency.
-func (p *Program) ExternalFunc(pkgPath, name string) *types.Func {
+func (p *Program) ExternalFuncObj(pkgPath, name string) *types.Func {
 	var found *types.Func
 	seen := map[*types.Package]bool{}
 	var visit func(pk *types.Package)
